@@ -55,6 +55,7 @@ GPG_STATES = [
     ("hdr_odd", "invalid"),
     ("hdr_empty", "invalid"),
     ("hdr_hex_whitespace", "invalid"),
+    ("hdr_hex_trailing_lf", "invalid"),
     ("hugehdr_garbage_sig", "invalid"),
     ("alg_sha512_declared_and_used", "invalid"),
     ("alg_sha1_declared_and_used", "invalid"),
@@ -212,6 +213,9 @@ def make_gpg(state, key, data, rng):
         if hh == h.hex():
             return dict(good, other_headers="AB")
         return dict(good, other_headers=hh)
+    if state == "hdr_hex_trailing_lf":
+        # exactly one line feed after the genuine header's hex (what `$` in a regular expression lets through)
+        return dict(good, other_headers=h.hex() + "\n")
     if state == "hdr_hex_whitespace":
         # the genuine header's hex with white space a lenient hex decoder skips (one trailing line feed, inner blanks, ...): not a
         # hex string; the entry is malformed although a lenient decoder recovers the very bytes that were signed
